@@ -69,9 +69,9 @@ type asm struct {
 	inDI   int
 }
 
-func (a *asm) emit(bs ...uint8) { a.b = append(a.b, bs...) }
-func (a *asm) here() uint16     { return a.base + uint16(len(a.b)) }
-func (a *asm) dataAddr() uint16 { return genData + uint16(a.r.Intn(0xf0)) }
+func (a *asm) emit(bs ...uint8)            { a.b = append(a.b, bs...) }
+func (a *asm) here() uint16                { return a.base + uint16(len(a.b)) }
+func (a *asm) dataAddr() uint16            { return genData + uint16(a.r.Intn(0xf0)) }
 func (a *asm) w16(v uint16) (uint8, uint8) { return uint8(v), uint8(v >> 8) }
 
 var gregs = []int{0, 1, 2, 3, 4, 5, 7} // B C D E H L A (index into r[] encoding)
